@@ -29,7 +29,14 @@
    reads the closed form at the running positions (C09_nth_program) and after ANY script the
    iterator is on a state plain next() calls reach, so exact lengths and fusedness hold at every
    point of every such history (C09_after_any_script_exact_and_fused); op (9 7 script ..) drives
-   every iterator family and API form by such scripts. *)
+   every iterator family and API form by such scripts. 
+   Third extension wave, builder GEN (appended block at the very end): C09_generated_steps_match_model
+   ties the step functions to the Rust TEXT - tools/gen_arith.py re-translates fn column_major_iter /
+   row_major_iter (src/matrices/iterators.rs), ShapeIterator::from and fn iter (the odometer:
+   increment, carry loop `for d in (1..D).rev()` as a fold with bounds-checked array reads / writes,
+   finish test, D = 0; src/tensors/indexing.rs) on every run (Gen/Arith.v) and Proofs/GenIterP.v
+   proves them equal to column_major_step / row_major_step / shape_iter_from / iter_next in both
+   build profiles whenever no counter is usize::MAX (notes/GEN.md). *)
 From Coq Require Import List ZArith NArith Bool Arith.
 From EasyML Require Import Base.Sx Model.Shape Model.Tensor Model.TSource Model.ShapeIter
   Model.MatrixIter Model.Transform Proofs.ShapeP Proofs.C01P Proofs.OdometerP Proofs.C09P
@@ -681,3 +688,51 @@ Print Assumptions C09_c12_stack_owned_moves_once.
 Print Assumptions C09_iterators_have_closed_forms.
 Print Assumptions C09_nth_program.
 Print Assumptions C09_after_any_script_exact_and_fused.
+
+(* ---- third extension wave (builder GEN): the step functions regenerated from the source ----
+   In both build profiles: (1) fn column_major_iter / row_major_iter as generated return the
+   place and leave the (finished, row_counter, column_counter) that Model/MatrixIter.v's
+   column_major_step / row_major_step compute, for any non-empty size and counters below
+   usize::MAX; (2) ShapeIterator::from as generated builds the model's initial state (finished
+   iff SOME length is zero); (3) fn iter as generated - the odometer step - returns the item
+   and leaves the finished flag and index array of Model/ShapeIter.v's iter_next, for every
+   dimensionality (D = 0 included) and every state whose indexes are below usize::MAX. *)
+From EasyML Require Import Model.U64 Gen.Arith.
+From EasyML Require Proofs.GenIterP.
+
+Theorem C09_generated_steps_match_model : forall md,
+  (forall fin rows cols rc cc, 0 < rows -> 0 < cols -> rc < usize_max -> cc < usize_max ->
+     gen_column_major_iter md fin rows cols rc cc = Ok (@column_major_step fin rows cols rc cc) /\
+     gen_row_major_iter md fin rows cols rc cc = Ok (@row_major_step fin rows cols rc cc)) /\
+  (forall sh,
+     gen_ShapeIterator_from md (GenIterP.shN sh) =
+     Ok (GenIterP.shN (si_shape (shape_iter_from sh)), si_indexes (shape_iter_from sh), si_finished (shape_iter_from sh))) /\
+  (forall it : shape_iter,
+     length (si_indexes it) = length (si_shape it) ->
+     (forall j, nth j (si_indexes it) 0 < usize_max) ->
+     gen_ShapeIterator_iter md (si_finished it) (si_indexes it) (GenIterP.shN (si_shape it)) =
+     Ok (fst (iter_next it), (si_finished (snd (iter_next it)), si_indexes (snd (iter_next it))))).
+Proof. exact GenIterP.generated_steps_match_model. Qed.
+
+(* non-vacuity: the generated steps evaluated by the kernel - a carry through two dimensions, the
+   last item (finishes), D = 0, a zero length in a trailing dimension, a column end *)
+Example C09_generated_steps_nonvacuous :
+  gen_ShapeIterator_iter Debug false [0; 1; 2] [(0, 2); (1, 2); (2, 3)] = Ok (Some [0; 1; 2], (false, [1; 0; 0])) /\
+  gen_ShapeIterator_iter Release false [1; 1; 2] [(0, 2); (1, 2); (2, 3)] = Ok (Some [1; 1; 2], (true, [2; 0; 0])) /\
+  gen_ShapeIterator_iter Debug false [] [] = Ok (Some [], (true, [])) /\
+  gen_ShapeIterator_iter Debug true [2; 0] [(0, 2); (1, 3)] = Ok (None, (true, [2; 0])) /\
+  gen_ShapeIterator_from Debug [(0, 2); (1, 0)] = Ok ([(0, 2); (1, 0)], [0; 0], true) /\
+  gen_ShapeIterator_from Debug [(0, 2); (1, 3)] = Ok ([(0, 2); (1, 3)], [0; 0], false) /\
+  gen_column_major_iter Debug false 2 3 1 0 = Ok (Some (1, 0), (false, 0, 1)) /\
+  gen_column_major_iter Debug false 2 3 1 2 = Ok (Some (1, 2), (true, 0, 3)) /\
+  gen_row_major_iter Debug false 2 3 0 2 = Ok (Some (0, 2), (false, 1, 0)) /\
+  gen_row_major_iter Debug false 3 0 0 0 = Panic /\
+  (exists it : shape_iter, length (si_indexes it) = length (si_shape it) /\ (forall j, nth j (si_indexes it) 0 < usize_max) /\
+                           si_finished it = false /\ length (si_shape it) = 3%nat).
+Proof.
+  repeat (split; [vm_compute; reflexivity|]).
+  exists (mkSI [(0%nat, 2); (1%nat, 2); (2%nat, 3)] [0; 1; 2] false). cbn [si_indexes si_shape si_finished length].
+  repeat split. intros [|[|[|[|j]]]]; vm_compute; reflexivity.
+Qed.
+
+Print Assumptions C09_generated_steps_match_model.
